@@ -9,6 +9,7 @@ import (
 	"github.com/cnotch/ipchub/av/format/rtp"
 	"github.com/cnotch/ipchub/media"
 
+	"verif/harness/oracle"
 	"verif/harness/sim"
 )
 
@@ -73,6 +74,8 @@ func buildC01Media(tier string) sim.Scenario {
 			ch   byte
 			size int
 			key  bool
+			agg  bool
+			frag bool
 		}
 		var specs []spec
 		for i := 0; i < nPk; i++ {
@@ -97,6 +100,8 @@ func buildC01Media(tier string) sim.Scenario {
 			default:
 				sp.size = 6 + tp.Choose(1995)
 			}
+			sp.agg = tp.OneIn(4)
+			sp.frag = tp.OneIn(6)
 			specs = append(specs, sp)
 		}
 		for i := 0; i < nCons; i++ {
@@ -130,12 +135,30 @@ func buildC01Media(tier string) sim.Scenario {
 				var p *rtp.Packet
 				switch sp.ch {
 				case rtp.ChannelVideo:
-					typ := byte(1)
+					typ := 1
 					if nv%gopLen == 0 {
 						typ = 5
 					}
 					nv++
-					p = mkRTP(sp.ch, 96, vseq, vts, true, nalH264(typ, i, sp.size))
+					payload := nalH264(byte(typ), i, sp.size)
+					if sp.agg && sp.size < 1400 {
+						// STAP-A aggregating NAL units with different NRI bits (SEI has NRI 0): the kind of packet a depacketiser might be tempted to rewrite in place
+						nals := [][]byte{oracle.MakeNAL(oracle.H264, 6, i, 7), oracle.MakeNAL(oracle.H264, typ, i, 9+sp.size%40)}
+						if typ == 5 {
+							nals = append([][]byte{oracle.MakeNAL(oracle.H264, 7, i, 12), oracle.MakeNAL(oracle.H264, 8, i, 6)}, nals...)
+						}
+						pk := oracle.Pack(oracle.H264, []oracle.AU{{NALs: nals, TS: vts}}, 1400, func(n int) int {
+							if n == 4 {
+								return 3 // aggregate as much as fits
+							}
+							return 0
+						})
+						payload = pk[0].Payload
+					} else if sp.frag && sp.size > 20 {
+						pk := oracle.Pack(oracle.H264, []oracle.AU{{NALs: [][]byte{payload}, TS: vts}}, sp.size/2+3, func(n int) int { return 0 })
+						payload = pk[0].Payload // first fragment only is fine for the fan-out (bytes are opaque to it)
+					}
+					p = mkRTP(sp.ch, 96, vseq, vts, true, payload)
 					vseq++
 					vts += 3000
 				case rtp.ChannelAudio:
